@@ -4,7 +4,7 @@ package server
 
 // C10/tcp — two scripted connections (clients A and B) served alternately by
 // the same real TCP engine, with every sync.Pool in LIFO mode and the slab
-// ring as small as the constructor allows (1 or 2 small slabs, 1 large), so
+// ring as small as the constructor allows (1 or 2 slabs per class), so
 // the job slab, the per-connection stream, the chain, the edns/cache writers
 // and the pack state one client releases are exactly what the other client
 // gets next.
@@ -90,6 +90,9 @@ func vkRunC10Case(w *vkSrvWorld, tc vkC10Case) (viol, herr, outcome string, skip
 		return cl
 	}
 	a, b := mk(vkTagA, tc.KindsA, tc.CutA, 1), mk(vkTagB, tc.KindsB, tc.CutB, 2)
+	// a fresh engine per case: slabs, streams and tokens start empty, so a
+	// case never depends on what an earlier case left in a slab
+	w.newTCP(tc.Slabs)
 	defer func() { w.purge(a.frames); w.purge(b.frames) }()
 	for _, cl := range []*vkC10Client{a, b} {
 		if h := w.start(cl.conn); h != "" {
